@@ -85,13 +85,13 @@ def body_for(p: Program, h, inp):
         shift = idx * f.stride if f.array else 0
         args = f"{idx}, {val}" if f.array else val
         if k in ("with", "oob_with"):
-            op = f"let t_ = s_.with_{f.name}({args});"
+            op = f"let t_ = s_.with_{f.base}({args});"
         else:
-            op = f"let mut t_ = s_; t_.set_{f.name}({args});"
+            op = f"let mut t_ = s_; t_.set_{f.base}({args});"
         if k.startswith("oob"):
             return f"    let s_ = {mk}; {op} Err(\"an out-of-range index returned\".to_string())"
         if k == "setwith":
-            return (f"    let s_ = {mk}; let w_ = s_.with_{f.name}({args}); let mut m_ = s_; m_.set_{f.name}({args});\n"
+            return (f"    let s_ = {mk}; let w_ = s_.with_{f.base}({args}); let mut m_ = s_; m_.set_{f.base}({args});\n"
                     f"    if {s.pubraw('s_')} != {u(g('in_raw'))} {{ return Err(\"with_ changed its receiver\".to_string()); }}\n"
                     f"    if {s.pubraw('m_')} == {s.pubraw('w_')} {{ Ok(\"set_ and with_ agree\".to_string()) }} else {{ Err(format!(\"set_ gives {{:#x}}, with_ gives {{:#x}}\", {s.pubraw('m_')}, {s.pubraw('w_')})) }}")
         return (f"    let s_ = {mk}; {op}\n    let exp_ = put_spec({u(g('in_raw'))}, {f.ranges_lit()}, {shift}, {u(g('in_val_v'))});\n"
@@ -102,7 +102,7 @@ def body_for(p: Program, h, inp):
         args = f"{idx}, {val}" if f.array else val
         rd = f"{idx}" if f.array else ""
         pred = f.ty.result_pred("(&g_)", u(g("in_val_v")), pub=True)
-        return (f"    let s_ = {mk}; let g_ = s_.with_{f.name}({args}).{f.name}({rd});\n"
+        return (f"    let s_ = {mk}; let g_ = s_.with_{f.base}({args}).{f.name}({rd});\n"
                 f"    if {pred} {{ Ok(\"read-back returns what was written\".to_string()) }} else {{ Err(\"read-back differs from the written value\".to_string()) }}")
     if k == "ctor" or k == "rt":
         x = g("in_val")
@@ -153,7 +153,7 @@ def body_for(p: Program, h, inp):
                             v = ds[0]
                     vals.append(v)
                     acc = f"put_spec({acc}, {ff.ranges_lit()}, {i * ff.stride}, {u(v)})"
-                calls.append(f".with_{ff.name}([" + ", ".join(from_view(ff.ty, u(v)) for v in vals) + "])")
+                calls.append(f".with_{ff.base}([" + ", ".join(from_view(ff.ty, u(v)) for v in vals) + "])")
             else:
                 key = f"a{kk}_v"
                 v = g(key) if key in inp else 0
@@ -162,7 +162,7 @@ def body_for(p: Program, h, inp):
                     if v not in ds:
                         v = ds[0]
                 acc = f"put_spec({acc}, {ff.ranges_lit()}, 0, {u(v)})"
-                calls.append(f".with_{ff.name}({from_view(ff.ty, u(v))})")
+                calls.append(f".with_{ff.base}({from_view(ff.ty, u(v))})")
         return (f"    let r_ = {s.name}::builder(){''.join(calls)}.build();\n    let exp_ = {acc};\n"
                 f"    if {s.pubraw('r_')} == exp_ {{ Ok(format!(\"builder result agrees with spec {{:#x}}\", exp_)) }} "
                 f"else {{ Err(format!(\"builder result {{:#x}}, spec {{:#x}}\", {s.pubraw('r_')}, exp_)) }}")
